@@ -133,6 +133,9 @@ func (x *Exec) callCommon(fr *frame, s *State, c *ssa.CallCommon, fnv Value, arg
 	if b, ok := c.Value.(*ssa.Builtin); ok {
 		return x.builtin(fr, s, b, c, args, pos)
 	}
+	saved := x.curCall
+	x.curCall = c
+	defer func() { x.curCall = saved }()
 	if c.IsInvoke() {
 		key := x.E.invokeKey(c)
 		x.atCallCheck(fr, s, key, append([]Value{fnv}, args...))
